@@ -839,9 +839,9 @@ pub fn raw_op(lock: u32, act: Act, mode: Mode) -> bool {
 			return abort_point().0;
 		}
 		if lock as usize >= g.locks.len() {
-			// the lock table is not declared yet (world construction): stay consistent with the
-			// registration touch, which reports the lock as busy
-			return act != Act::Try;
+			// the lock table is not declared yet (world construction): nothing is tracked, every operation
+			// succeeds (a mutant that spins on a try during registration must not hang the harness)
+			return true;
 		}
 		// 1. fault check
 		let idx = g.raw_counter;
@@ -883,6 +883,14 @@ pub fn raw_op(lock: u32, act: Act, mode: Mode) -> bool {
 		}
 		g.on_issue(tid, op);
 		gran = g.gran;
+		if gran == Gran::ApiCall && g.nthreads <= 1 && g.threads[tid].ctx.raw_ops > 50_000 {
+			// sequential mode has no scheduler horizon: a call that keeps issuing raw operations (a spin on a try,
+			// a retry loop that never retreats) would otherwise only end at the watchdog
+			let what = g.threads[tid].ctx.what.clone();
+			g.violations.push(Violation { prop: "C01", key: format!("livelock|{}", what_key(&what)), detail: format!("`{}` issued more than 50 000 raw lock operations without returning (last: {})", what, op.short()) });
+			drop(g);
+			resume_unwind(Box::new(SelfWaitToken));
+		}
 		if gran == Gran::ApiCall {
 			// run-through unless blocked
 			if act != Act::Lock || g.grantable(tid, op) {
